@@ -37,9 +37,16 @@ func NewErrorReader(r io.Reader) *ErrorReader {
 }
 
 func (er *ErrorReader) Read(b []byte) (n int, err error) {
+	if er.Err != nil {
+		// the error is sticky: nothing read after a failure is a value
+		clear(b)
+		return 0, er.Err
+	}
 	n, err = io.ReadFull(er.Reader, b)
 	if err != nil {
 		er.Err = err
+		// never hand back a partial read or stale scratch bytes as a value
+		clear(b)
 	}
 	return n, err
 }
